@@ -487,6 +487,30 @@ func c06Literals(c *Cfg, r *Rng, n int) {
 			}
 		}
 	}
+	// exhaustive small scope: every string over a number alphabet up to length 4 (5 in the
+	// thorough tier) through the ParseNum + Decimal route
+	{
+		const alpha = "01.eK_-+xi"
+		maxLen := c.Pick(4, 5)
+		var rec func(prefix string)
+		rec = func(prefix string) {
+			if len(prefix) > 0 {
+				v, rp, _, _ := c06LitAnswers(prefix)
+				c.Op("O", "lit "+H(prefix), v)
+				if v != "err" {
+					c.Op("I", "litrepr "+H(prefix), rp)
+					c.Count("exh:" + strings.SplitN(v, " ", 2)[0])
+				}
+			}
+			if len(prefix) == maxLen {
+				return
+			}
+			for i := 0; i < len(alpha); i++ {
+				rec(prefix + alpha[i:i+1])
+			}
+		}
+		rec("")
+	}
 	// fixed witnesses and table
 	for _, t := range []struct{ s, want string }{
 		{"1K", "int 1e3"}, {"1M", "int 1e6"}, {"1G", "int 1e9"}, {"1T", "int 1e12"}, {"1P", "int 1e15"},
